@@ -24,6 +24,13 @@ def u32max : Nat := 4294967295
 def optU32 (cs : List Char) : Option (Option Nat) :=
   if cs == ['-'] then some none else (natOf cs u32max).map some
 
+/-- an optional-attribute field: `-` absent, `!` the type code holds an Invalid attribute (`PaMap::get`
+finds nothing, so the value is `none`; the flag goes into the route's never-read content), or a number -/
+def slotU32 (cs : List Char) (max : Nat) : Option (Option Nat × Bool) :=
+  if cs == ['!'] then some (none, true)
+  else if cs == ['-'] then some (none, false)
+  else (natOf cs max).map fun v => (some v, false)
+
 def allSome {α : Type} : List (Option α) → Option (List α)
   | [] => some []
   | none :: _ => none
@@ -46,7 +53,6 @@ def parseHop (cs : List Char) : Option Hop :=
         | none => none
         | some as =>
           if as.length > 255 then none
-          else if ty == 2 && as.isEmpty then none
           else if two && as.any (· > 65535) then none
           else some (Hop.seg ty as)
 
@@ -64,20 +70,22 @@ def parseRoute (s : String) : Option Route :=
   | [src, dop, lp, path, origin, med, lasn, oid, bgpid, cl, peer, extra] => do
     let ibgp ← if src == ['e'] then some false else if src == ['i'] then some true else none
     let dop ← optU32 dop
-    let lp ← optU32 lp
+    let (lp, lpBogus) ← slotU32 lp u32max
     let path ← parsePath path
     let origin ← if origin == ['-'] then some Slot.absent else if origin == ['!'] then some Slot.bogus
                  else (natOf origin 255).map Slot.val
-    let med ← optU32 med
+    let (med, medBogus) ← slotU32 med u32max
     let lasn ← natOf lasn u32max
-    let oid ← optU32 oid
+    let (oid, oidBogus) ← slotU32 oid u32max
     let bgpid ← natOf bgpid u32max
-    let cl ← if cl == ['-'] then some none else (natOf cl 64).map some
+    let (cl, clBogus) ← slotU32 cl 64
     let (v6, addr) ← match splitCh ':' peer with
       | [['4'], a] => (natOf a u32max).map (false, ·)
       | [['6'], a] => (natOf a (2 ^ 128 - 1)).map (true, ·)
       | _ => none
     let extra ← natOf extra u32max
+    -- Invalid attributes under the optional type codes are content the comparison never reads
+    let extra := extra + 4294967296 * (lpBogus.toNat + 2 * medBogus.toNat + 4 * oidBogus.toNat + 8 * clBogus.toNat)
     pure { ibgp := ibgp, dop := dop, localPref := lp, path := path, origin := origin, med := med, localAsn := lasn,
            originatorId := oid, bgpId := bgpid, clusterLen := cl, peerV6 := v6, peerAddr := addr, extra := extra }
   | _ => none
@@ -85,11 +93,10 @@ def parseRoute (s : String) : Option Route :=
 def parseStrat (s : String) : Option Strat :=
   if s == "skipmed" then some .skipMed else if s == "rfc4271" then some .rfc4271 else none
 
+/-- the line protocol says `ok` / `refused` only: the property does not speak about the reason -/
 def showRefusal : Option Refusal → String
   | none => "ok"
-  | some .noOrigin => "no-origin"
-  | some .noPath => "no-path"
-  | some .noNeighbour => "no-neighbour"
+  | some _ => "refused"
 
 def showOrd : Ordering → String
   | .lt => "lt"
